@@ -1088,6 +1088,7 @@ RD_SPECS = [
     RFn("relativedelta.__bool__", "bool", [], "Bool"),
     RFn("relativedelta.__eq__", "eq", [("other", "RD")], "Bool"),
     RFn("relativedelta.__hash__", "hashKey", [], "HashKey"),
+    RFn("relativedelta.__ne__", "ne", [("other", "RD")], "Bool"),
     # relativedelta(dt1, dt2)
     RFn("relativedelta.__init__", "initDiff", [("dt1", "Temporal"), ("dt2", "Temporal")], "RD",
         init_self=True, returns_self=True, ctx=[("off", "Nat → DT → Int")]),
